@@ -58,8 +58,12 @@ def u64_universes():
     # 48/49 boundary
     out.append(U("g1-i48-i256", g1(range(1, 46)), g1([46, 47, 48, 49, 50, 51]), probes=g1([0, 200]), variants=()))
     # an I48 whose children sit at high, sparse key bytes (seek has to walk the 256-entry index map, not the 48 slots)
-    out.append(U("g1-i48-high", g1([0x10 + 8 * i for i in range(18)]), g1([0x34, 0x9c, 0xf0, 0x05]), probes=g1([0x0f, 0xff]),
+    out.append(U("g1-i48-high", g1([0x10 + 8 * i for i in range(18)]), g1([0x34, 0x9c, 0xff, 0x00]), probes=g1([0x0f, 0xfe]),
                  variants=()))
+    # an I256 with children at the extreme bytes 00 and FF and gaps next to them
+    out.append(U("g1-i256-high", g1([5 * i for i in range(50)] + [0xff]), g1([0xfa, 0x03, 0xfd]), probes=g1([0x01, 0xfe]), variants=()))
+    # small nodes with children at the extreme bytes
+    out.append(U("g1-extremes", g1([0x00, 0xff]), g1([0x01, 0xfe, 0x80, 0x7f, 0x02, 0xfd]), probes=g1([0x03, 0xfc]), variants=(0,)))
     # fill to 256 and come back
     out.append(U("g1-full-256", g1([x for x in range(256) if x not in (0, 100, 101, 200, 255)]), g1([0, 100, 101, 200, 255]),
                  probes=[key(0, 0, 0, 0, 0, 0, 1)], variants=()))
